@@ -26,7 +26,7 @@ ID = "C12"
 LEVEL = "model_checking"
 TECHNIQUE = "fault enumeration over user callables x exception types, and explicit-state search over failing/succeeding evaluation histories with exact cache-state restore; differential oracle against the memo-free twin"
 RULE = (
-    "terms = contexts^d x leaves with an eager value (d<=1 quick, d<=2 thorough) plus 8 hand-listed multi-dataset "
+    "terms = contexts^d x leaves with an eager value (d<=1 quick, d<=2 over 21 core contexts thorough) plus 8 hand-listed multi-dataset "
     "graphs; pass A: callables x {ValueError, KeyError, TypeError, StopIteration, CacheGetFailure, EvaluationError, "
     "KeyNotFoundError} x all dictionaries; pass B: fault scripts {none} + {callable raises ValueError when its first "
     "argument is 1 / is 2} x all ordered pairs of dictionaries (states = cache contents after the first evaluation). "
@@ -36,6 +36,8 @@ ASSUMPTIONS = [
     "a bare lazy Iter/Map result at top level is excluded: its elements fail when iterated, outside evaluate()",
     "when several options are missing the implementation may name any one that is absent",
 ]
+CORE2 = ["apply", "bind_src", "bind_res", "switch_disp", "switch_branch", "case_disp", "case_cond", "coalesce_first", "coalesce_second",
+         "list", "map_ev", "fa_kw", "ds_param", "ds_dispatch", "ds_overload", "ds_callback", "ds_effect", "wo_A", "cached", "tmpl_param", "opt_default"]
 EXCS = ["ValueError", "KeyError", "TypeError", "StopIteration", "CacheGetFailure", "EvaluationError", "KeyNotFoundError"]
 
 
@@ -71,13 +73,11 @@ def cases(tier, seed):
     for label, term, spec in _multi():
         out.append(("sys", label, term, spec))
     for depth in depths:
-        idx = []
-        for i, combo in enumerate(itertools.product([c[0] for c in cat.CONTEXTS], repeat=depth)):
-            pass
-        n = sum(1 for _ in cat.catalogue(depth))
+        ctxs = None if depth <= 1 else CORE2
+        n = sum(1 for _ in cat.catalogue(depth, None, ctxs))
         step = 10 if depth <= 1 else 20
         for a in range(0, n, step):
-            out.append(("batch", depth, a, min(n, a + step), tier))
+            out.append(("batch", depth, a, min(n, a + step), tier, ctxs))
     return out
 
 
@@ -258,8 +258,9 @@ def run_case(case):
         res["systems"] = 1
         res["samples"].append({"system": label, "term": short(term, 300), "callables": [list(c) for c in callables(term)]})
         return res
-    _, depth, a, b, tier = case
-    for label, term, spec in itertools.islice(cat.catalogue(depth), a, b):
+    _, depth, a, b, tier = case[:5]
+    ctxs = case[5] if len(case) > 5 else None
+    for label, term, spec in itertools.islice(cat.catalogue(depth, None, ctxs), a, b):
         if not _eager(label):
             continue
         res["systems"] += 1
